@@ -92,14 +92,15 @@ static const size_t Table_Primes[TABLE_PRIMES_COUNT] = {
 static const double Table_Load_Factor = 0.9;
 
 static size_t Table_Ideal_Size(size_t size) {
+  /* More than can be addressed: a size the allocation is sure to refuse */
+  if (size > SIZE_MAX / 4) { return SIZE_MAX; }
   size = (size_t)((double)(size+1) / Table_Load_Factor);
   for (size_t i = 0; i < TABLE_PRIMES_COUNT; i++) {
     if (Table_Primes[i] >= size) { return Table_Primes[i]; }
   }
+  /* The smallest multiple of the last prime that is large enough */
   size_t last = Table_Primes[TABLE_PRIMES_COUNT-1];
-  for (size_t i = 0;; i++) {
-    if (last * i >= size) { return last * i; }
-  }
+  return last * (size / last + (size % last isnt 0 ? 1 : 0));
 }
 
 static size_t Table_Step(struct Table* t) {
@@ -426,15 +427,18 @@ static void Table_Rehash(struct Table* t, size_t new_size) {
   var old_data = t->data;
   size_t old_size = t->nslots;
   
-  t->nslots = new_size;
-  t->nitems = 0;
-  t->data = calloc(t->nslots, Table_Step(t));
+  /* The Table changes only once the new slots are there */
+  var new_data = calloc(new_size, Table_Step(t));
   
 #if CELLO_MEMORY_CHECK == 1
-  if (t->data is NULL) {
+  if (new_data is NULL and new_size isnt 0) {
     throw(OutOfMemoryError, "Cannot allocate Table, out of memory!");
   }
 #endif
+  
+  t->nslots = new_size;
+  t->nitems = 0;
+  t->data = new_data;
   
   for (size_t i = 0; i < old_size; i++) {
     
